@@ -94,51 +94,7 @@ func runC03(c *Ctx) {
 			e.CallGuard(PassErrNil, "(*"+sp+"Raw).ToDecoded"), e.CallGuard(PassErrNil, "(*"+sp+"Decoded).Reverse"),
 			e.CallGuard(PassErrNil, "invoke:pkg/slayers/path.Path.SerializeTo"))
 	}
-	op := "pkg/slayers/path/onehop."
-	if v := c.View("(*" + op + "Path).ToSCIONDecoded"); v != nil {
-		rule := "R3-onehop"
-		e := NewE1(c, v.Fn)
-		e.Require(rule, "complete-path-only", nil, e.SuccessReturns(), e.AtomGuard("second hop has ingress", "-eq(recv.SecondHop.ConsIngress, 0)"))
-		// the two hop fields are copied member by member, in order
-		hopLit := map[int]map[string]string{}
-		for _, st := range v.Stores("*.HopFields") {
-			if els, ok := decodeSliceLit(v.S, st.In.Val); ok {
-				for k, el := range els {
-					hopLit[k] = el
-				}
-			}
-		}
-		okHops := len(hopLit) == 2
-		for k, src := range map[int]string{0: "recv.FirstHop.", 1: "recv.SecondHop."} {
-			if hopLit[k][""] == strings.TrimSuffix(src, ".") {
-				continue // the hop field is copied as a whole
-			}
-			for _, f := range []string{"IngressRouterAlert", "EgressRouterAlert", "ConsIngress", "ConsEgress", "ExpTime", "Mac"} {
-				if hopLit[k][f] != src+f {
-					okHops = false
-					c.Fail(rule, v.Name()+fmt.Sprintf(":hop-%d.%s", k, f), v.Fn.Pos(), "is "+hopLit[k][f]+"; required "+src+f)
-				}
-			}
-		}
-		if okHops {
-			c.OK(rule, v.Name()+":hop-fields", v.Fn.Pos(), "hop 0 = FirstHop, hop 1 = SecondHop, member by member")
-		}
-		v.RequireStore(rule, 1, "*.ConsDir", "true")
-		v.RequireStore(rule, 1, "*.SegID", "recv.Info.SegID")
-		v.RequireStore(rule, 1, "*.Timestamp", "recv.Info.Timestamp")
-		v.RequireStore(rule, 1, "*.NumHops", "2")
-		v.RequireStore(rule, 1, "*.NumINF", "1")
-	}
-	if v := c.View("(*" + op + "Path).Reverse"); v != nil {
-		rule := "R3-onehop"
-		e := NewE1(c, v.Fn)
-		conv := "(*" + op + "Path).ToSCIONDecoded(recv)#0"
-		v.RequireCallArgs(rule, 1, "(*"+sp+"Base).IncPath", conv+".Base")
-		v.RequireCallArgs(rule, 1, "(*"+sp+"Decoded).Reverse", conv)
-		revs := e.CallSites("(*" + sp + "Decoded).Reverse")
-		e.Require(rule, "reverse-after-increment", nil, revs,
-			e.CallGuard(PassErrNil, "(*"+op+"Path).ToSCIONDecoded"), e.CallGuard(PassErrNil, "(*"+sp+"Base).IncPath"))
-	}
+	onehopReversalRules(c, "R3-onehop")
 	if v := c.View("(pkg/snet.DefaultReplyPather).ReplyPath"); v != nil {
 		rule := "R4-reply-pather"
 		e := NewE1(c, v.Fn)
@@ -346,4 +302,56 @@ func structFieldNames(c *Ctx, q string) []string {
 		out = append(out, canonFieldName(obj.Type(), st.Field(i).Name()))
 	}
 	return out
+}
+
+
+// onehopReversalRules: a one-hop path is reversed by converting it into a
+// one-segment SCION path (both hop fields member by member, construction
+// direction, segment id and timestamp of the info field, NO peering flag), moving
+// it to the second hop and reversing that. Used by C03 and C12.
+func onehopReversalRules(c *Ctx, rule string) {
+	sp := "pkg/slayers/path/scion."
+	op := "pkg/slayers/path/onehop."
+	if v := c.View("(*" + op + "Path).ToSCIONDecoded"); v != nil {
+				e := NewE1(c, v.Fn)
+		e.Require(rule, "complete-path-only", nil, e.SuccessReturns(), e.AtomGuard("second hop has ingress", "-eq(recv.SecondHop.ConsIngress, 0)"))
+		// the two hop fields are copied member by member, in order
+		hopLit := map[int]map[string]string{}
+		for _, st := range v.Stores("*.HopFields") {
+			if els, ok := decodeSliceLit(v.S, st.In.Val); ok {
+				for k, el := range els {
+					hopLit[k] = el
+				}
+			}
+		}
+		okHops := len(hopLit) == 2
+		for k, src := range map[int]string{0: "recv.FirstHop.", 1: "recv.SecondHop."} {
+			if hopLit[k][""] == strings.TrimSuffix(src, ".") {
+				continue // the hop field is copied as a whole
+			}
+			for _, f := range []string{"IngressRouterAlert", "EgressRouterAlert", "ConsIngress", "ConsEgress", "ExpTime", "Mac"} {
+				if hopLit[k][f] != src+f {
+					okHops = false
+					c.Fail(rule, v.Name()+fmt.Sprintf(":hop-%d.%s", k, f), v.Fn.Pos(), "is "+hopLit[k][f]+"; required "+src+f)
+				}
+			}
+		}
+		if okHops {
+			c.OK(rule, v.Name()+":hop-fields", v.Fn.Pos(), "hop 0 = FirstHop, hop 1 = SecondHop, member by member")
+		}
+		v.RequireStore(rule, 1, "*.ConsDir", "true")
+		v.RequireStore(rule, 1, "*.SegID", "recv.Info.SegID")
+		v.RequireStore(rule, 1, "*.Timestamp", "recv.Info.Timestamp")
+		v.RequireStore(rule, 1, "*.NumHops", "2")
+		v.RequireStore(rule, 1, "*.NumINF", "1")
+	}
+	if v := c.View("(*" + op + "Path).Reverse"); v != nil {
+				e := NewE1(c, v.Fn)
+		conv := "(*" + op + "Path).ToSCIONDecoded(recv)#0"
+		v.RequireCallArgs(rule, 1, "(*"+sp+"Base).IncPath", conv+".Base")
+		v.RequireCallArgs(rule, 1, "(*"+sp+"Decoded).Reverse", conv)
+		revs := e.CallSites("(*" + sp + "Decoded).Reverse")
+		e.Require(rule, "reverse-after-increment", nil, revs,
+			e.CallGuard(PassErrNil, "(*"+op+"Path).ToSCIONDecoded"), e.CallGuard(PassErrNil, "(*"+sp+"Base).IncPath"))
+	}
 }
